@@ -4,6 +4,7 @@ import struct
 
 import dns.exception
 import dns.name
+import dns.tokenizer
 import dns.wirebase
 
 from lib import Err
@@ -19,6 +20,8 @@ EXC = [
     (dns.name.AbsoluteConcatenation, 9),
     (dns.name.NoParent, 10),
     (dns.name.NeedSubdomainOfOrigin, 11),
+    (dns.exception.SyntaxError, 20),
+    (dns.exception.UnexpectedEnd, 21),
 ]
 
 
@@ -221,6 +224,29 @@ def run_impl(case):
             start = p.current
             n = dns.name.from_wire_parser(p)
             return [labels_of(n), p.current - start, list(tr)]
+        if op == 18:
+            # Tokenizer.get() (identifier path) and Tokenizer.get_name(origin) on ASCII text
+            text = bytes(case[1]).decode("latin-1")
+            origin = oname(case[2])
+
+            def ident():
+                tk = dns.tokenizer.Tokenizer(text)
+                t = tk.get()
+                if not t.is_identifier():
+                    raise NotImplementedError("not an identifier token")
+                rest = (tk.ungotten_char or "") + tk.file.read()
+                return [t.value.encode("latin-1"), rest.encode("latin-1")]
+
+            def name():
+                return labels_of(dns.tokenizer.Tokenizer(text).get_name(origin))
+
+            out = []
+            for f in (ident, name):
+                try:
+                    out.append(f())
+                except Exception as e:  # noqa
+                    out.append(exc_code(e))
+            return out
     except Exception as e:  # noqa
         return exc_code(e)
     raise ValueError(f"bad op {op}")
